@@ -317,3 +317,65 @@ M('C15', 'ts-flatten-without-sort', TSDU, "  return sortByKey(flattened, 'key');
 M('C15', 'py-flatten-without-sort', DU, '    combined.sort(key=lambda x: x.key)\n', '', 'R15.4')
 T('C15', 'twin-ts-whitelist-reordered', TSDEC, "      'base',\n      'local',\n      'remote',\n      'local_then_remote',", "      'local',\n      'base',\n      'remote',\n      'local_then_remote',")
 T('C15', 'twin-ts-comment-with-quotes', TSDEC, "function validateAction(action: string): Action {", "// validates the 'action' field; see \"Action\"\nfunction validateAction(action: string): Action {")
+
+# ------------------------------------------------------------------------------------------ C10
+M('C10', 'tryresolve-use-base-means-local', DEC, '            elif strategy == "use-base":\n                action = "base"', '            elif strategy == "use-base":\n                action = "local"', 'R10.1')
+M('C10', 'git-ours-theirs-swapped', PP, '    if strategy == "use-local":\n        cmd += " --ours"\n    elif strategy == "use-remote":\n        cmd += " --theirs"',
+  '    if strategy == "use-local":\n        cmd += " --theirs"\n    elif strategy == "use-remote":\n        cmd += " --ours"', 'R10.1')
+M('C10', 'diff3-use-local-returns-remote', PP, '    if strategy == "use-local":\n        return l, 0\n    elif strategy == "use-remote":\n        return r, 0',
+  '    if strategy == "use-local":\n        return r, 0\n    elif strategy == "use-remote":\n        return l, 0', 'R10.1')
+M('C10', 'list-arm-use-remote-picks-local', MG, '                elif list_strategy == "use-remote":\n                    # Not sure if this will be used, it just makes sense here\n                    decisions.remote(path, p0, p1)',
+  '                elif list_strategy == "use-remote":\n                    # Not sure if this will be used, it just makes sense here\n                    decisions.local(path, p0, p1)', 'R10.1')
+M('C10', 'git-cmd-file-order-changed', PP, "git_mergefile_print_cmd = 'git merge-file -p local base remote'", "git_mergefile_print_cmd = 'git merge-file -p remote base local'", 'R10.1')
+M('C10', 'temp-file-holds-other-side', PP, "        with io.open(os.path.join(td, 'local'), 'w', encoding=\"utf8\") as f:\n            f.write(l)",
+  "        with io.open(os.path.join(td, 'local'), 'w', encoding=\"utf8\") as f:\n            f.write(r)", 'R10.1')
+M('C10', 'generic-keeps-conflict-flag', STR, '                d.action = action\n                d.conflict = False\n    else:', '                d.action = action\n    else:', 'R10.2')
+M('C10', 'root-strategy-not-applied', MG, '    strategy = strategies.get("/")\n    resolve_strategy_generic(path, decisions, strategy)\n', '    strategy = strategies.get("/")\n', 'R10.3')
+M('C10', 'use-strategies-not-root', MNB, '    else:\n        strategies["/"] = merge_strategy', '    else:\n        strategies["/cells"] = merge_strategy', 'R10.3')
+M('C10', 'input-strategy-no-default', MNB, '    input_strategy = input_strategy or merge_strategy', '    input_strategy = input_strategy or "inline"', 'R10.3')
+T('C10', 'twin-elif-to-if-return', PP, '    if strategy == "use-local":\n        return l, 0\n    elif strategy == "use-remote":\n        return r, 0', '    if strategy == "use-local":\n        return l, 0\n    if strategy == "use-remote":\n        return r, 0')
+T('C10', 'twin-tryresolve-dict-order', DEC, '            if strategy == "use-local":\n                action = "local"\n            elif strategy == "use-remote":\n                action = "remote"',
+  '            if strategy == "use-remote":\n                action = "remote"\n            elif strategy == "use-local":\n                action = "local"')
+
+# ------------------------------------------------------------------------------------------ C07
+M('C07', 'conflict-flag-constant-false', STR, '        conflict = status != 0\n', '        conflict = False\n', 'R07.1')
+M('C07', 'conflict-flag-status-gt-1', STR, '        conflict = status != 0\n', '        conflict = status > 1\n', 'R07.1')
+M('C07', 'source-gets-header-line', STR, '        custom_diff = [op_replace(path[-1], merged)]', '        custom_diff = [op_replace(path[-1], "# merged by nbdime\\n" + merged)]', 'R07.1')
+M('C07', 'renderer-fed-base-twice', STR, '        remote = patch(base, remote_diff)\n        merged, status', '        remote = patch(base, local_diff)\n        merged, status', 'R07.1')
+M('C07', 'builtin-markers-with-status-0', PP, '    merged = "".join(lines)\n    return merged, 1', '    merged = "".join(lines)\n    return merged, 0', 'R07.2')
+M('C07', 'git-status-reset', PP, '    if "\\n" in lines[-1] and (">"*7) in lines[-1]:\n        merged = merged.rstrip()\n    return merged, status',
+  '    if "\\n" in lines[-1] and (">"*7) in lines[-1]:\n        merged = merged.rstrip()\n        status = 0\n    return merged, status', 'R07.2')
+M('C07', 'external-status-always-zero', PP, '        status = p.returncode\n        output = output.decode(\'utf8\')\n        # normalize newlines', '        status = 0\n        output = output.decode(\'utf8\')\n        # normalize newlines', 'R07.2')
+M('C07', 'deleted-marker-not-marker-shaped', STR, '["<<<<<<< REMOTE CELL DELETED >>>>>>>\\n"]', '["(cell deleted on remote)\\n"]', 'R07.3')
+M('C07', 'builtin-adds-explanatory-line', PP, '    sep2 = "%s\\n" % (sep2,)\n    lines.append(sep2)', '    sep2 = "%s\\n" % (sep2,)\n    lines.append("both sides changed these lines\\n")\n    lines.append(sep2)', 'R07.3')
+M('C07', 'cell-marker-plain-text', STR, '    cells.append(cell_marker("%s" % (m1,)))', '    cells.append(cell_marker("or"))', 'R07.3')
+M('C07', 'transient-guard-dropped', MG, '                if p0[0].op == DiffOp.REMOVERANGE and is_transient:', '                if p0[0].op == DiffOp.REMOVERANGE:', 'R07.4')
+M('C07', 'dict-removal-wins', MG, '            elif ld.op == DiffOp.REMOVE and is_diff_all_transients([rd], path, transients):', '            elif ld.op == DiffOp.REMOVE:', 'R07.4')
+T('C07', 'twin-bool-status', STR, '        conflict = status != 0\n', '        conflict = bool(status)\n')
+T('C07', 'twin-marker-size-8', PP, '    marker_size = 7  # git uses 7 by default', '    marker_size = 8  # wider')
+T('C07', 'twin-rename-merged', STR, '        merged, status = merge_render(base, local, remote, None)\n        conflict = status != 0\n\n        assert path[-1] == "source"\n        custom_diff = [op_replace(path[-1], merged)]',
+  '        text, status = merge_render(base, local, remote, None)\n        conflict = status != 0\n\n        assert path[-1] == "source"\n        custom_diff = [op_replace(path[-1], text)]')
+
+# ------------------------------------------------------------------------------------------ C11
+LCS = 'nbdime/diffing/lcs.py'
+SDL = 'nbdime/diffing/seq_difflib.py'
+SNK = 'nbdime/diffing/snakes.py'
+M('C11', 'lcs-returns-hand-built-list', LCS, '    return di.validated()', '    return list(reversed(di._diff))', 'R11.1')
+M('C11', 'opcodes-returns-reversed', SDL, '    return di.validated()', '    return di._diff[::-1]', 'R11.1')
+M('C11', 'attachments-hand-list', NBD, '    for key in sorted(bkeys - akeys):\n        di.add(key, b[key])\n    return di.validated()\n\n\ndef diff_mime_bundle',
+  '    out = di.validated()\n    for key in sorted(bkeys - akeys):\n        out.append(op_add(key, b[key]))\n    return out\n\n\ndef diff_mime_bundle', 'R11.1',
+  edits=[(NBD, 'from ..diff_format import MappingDiffBuilder, DiffOp', 'from ..diff_format import MappingDiffBuilder, DiffOp, op_add')])
+M('C11', 'addrange-tiebreak-changed', DF, '            while pos > 0 and self._diff[pos-1].key >= entry.key:', '            while pos > 0 and self._diff[pos-1].key > entry.key:', 'R11.1')
+M('C11', 'mapping-builder-allows-duplicates', DF, '        assert entry.key not in self._diff\n', '', 'R11.1')
+M('C11', 'differ-builds-patch-directly', GEN, '                if cd:\n                    di.patch(i + k, cd)  # FIXME', '                di.append(op_patch(i + k, cd))  # FIXME', 'R11.2',
+  edits=[(GEN, 'from ..diff_format import SequenceDiffBuilder, MappingDiffBuilder, validate_diff', 'from ..diff_format import SequenceDiffBuilder, MappingDiffBuilder, validate_diff, op_patch')])
+M('C11', 'builder-patch-without-guard', DF, '    def patch(self, key, diff):\n        if diff:\n            self.append(op_patch(key, diff))\n\n    def addrange',
+  '    def patch(self, key, diff):\n        self.append(op_patch(key, diff))\n\n    def addrange', 'R11.2')
+M('C11', 'push-patch-wraps-empty', DEC, '        dec.local_diff = [op_patch(key, dec.local_diff)] if dec.local_diff else []', '        dec.local_diff = [op_patch(key, dec.local_diff)]', 'R11.2')
+M('C11', 'recursion-into-atomic', GEN, '            if not config.is_atomic(aval, subpath):\n                cd = diffit', '            if True:\n                cd = diffit', 'R11.3')
+M('C11', 'dict-recursion-ignores-type', GEN, '        if type(avalue) is type(bvalue) and not config.is_atomic(avalue, path=subpath):', '        if not config.is_atomic(avalue, path=subpath):', 'R11.3')
+M('C11', 'is-atomic-treats-str-atomic', 'nbdime/diffing/config.py', 'return not isinstance(x, (str, list, dict))', 'return not isinstance(x, (list, dict))', 'R11.3')
+M('C11', 'output-differ-patches-other-key', NBD, '            di.patch("data", dd)', '            di.patch("metadata", dd)', 'R11.4')
+T('C11', 'twin-builder-temp', LCS, '    return di.validated()', '    result = di.validated()\n    return result')
+T('C11', 'twin-early-empty', SNK, '    subpath = "/".join((path, "*"))\n    diffit = config.differs[subpath]\n\n    di = SequenceDiffBuilder()\n    i0, j0',
+  '    if not a and not b:\n        return []\n    subpath = "/".join((path, "*"))\n    diffit = config.differs[subpath]\n\n    di = SequenceDiffBuilder()\n    i0, j0')
